@@ -610,22 +610,24 @@ class BaseSection(base.Sectionable):
 
             self._validate_no_cycle(obj)
 
-            # If required remove the object from its previous parent first,
-            # an object must never be a child of two parents.
-            if obj._parent is not None:
-                obj._parent.remove(obj)
-
+            # Insert first: a position that is not an index is refused by the list
+            # before anything has been changed.
+            old_parent = obj._parent
             self._sections.insert(position, obj)
+            # If required remove the object from its previous parent,
+            # an object must never be a child of two parents.
+            if old_parent is not None:
+                old_parent.remove(obj)
             obj._parent = self
         elif isinstance(obj, BaseProperty):
             if obj.name in self.properties:
                 raise ValueError("odml.Section.insert: "
                                  "Property with name '%s' already exists." % obj.name)
 
-            if obj._parent is not None:
-                obj._parent.remove(obj)
-
+            old_parent = obj._parent
             self._props.insert(position, obj)
+            if old_parent is not None:
+                old_parent.remove(obj)
             obj._parent = self
         else:
             raise ValueError("Can only insert sections and properties")
